@@ -233,6 +233,14 @@ func (c C14) Run(t *tape.Tape, opt core.RunOpt) (res core.Result) {
 				p := gen.Poison()
 				pos := t.Draw(len(frags) + 1)
 				frags = append(frags[:pos], append([]workload.Fragment{p}, frags[pos:]...)...)
+				if t.Bool(1, 4) {
+					// a second, independent reason to fail: whatever the loader does
+					// about the first one (stop, or carry on and merge) the second still
+					// makes the load fail
+					p2 := gen.Poison()
+					pos2 := t.Draw(len(frags) + 1)
+					frags = append(frags[:pos2], append([]workload.Fragment{p2}, frags[pos2:]...)...)
+				}
 			}
 		}
 		op := c14Op{API: api}
